@@ -18,16 +18,28 @@ Theorem C16_registered_on_time : forall s o r,
 Proof. exact registered_on_time. Qed.
 Print Assumptions C16_registered_on_time.
 
-(* not earlier: whatever happens (any history, changes of EpochsUntilUnbonded, downtime), an entry queued for epoch f is still
-   queued — hold in place, opt-out marker set, address resolvable — as long as epoch f has not been closed *)
+(* not earlier: whatever happens (any history, changes of EpochsUntilUnbonded, downtime, jailing, attempts to exchange the
+   epoch clock), an entry queued for epoch f is still queued — hold in place, opt-out marker set, address resolvable — on
+   every history during which epoch f is not closed ([all_states]: cur <= f in every state passed) *)
 Theorem C16_not_released_early : forall s0 h f x, Inv s0 ->
+  all_states (fun t => cur t <= f) s0 h ->
   let s := hrun s0 h in
-  cur s <= f ->
   (In (f, x) (q_und s0) -> In (f, x) (q_und s) /\ 1 <= holds s x) /\
   (In (f, x) (q_opt s0) -> In (f, x) (q_opt s) /\ k_rm s x = true) /\
   (In (f, x) (q_prune s0) -> In (f, x) (q_prune s) /\ k_rev s x <> None).
 Proof. exact not_early. Qed.
 Print Assumptions C16_not_released_early.
+
+(* the dogfood EpochIdentifier (the clock the queue keys refer to) can be exchanged only while nothing is scheduled or
+   pending; otherwise UpdateParams keeps the old identifier.  So C16_no_stranded survives this parameter change too *)
+Theorem C16_clock_change_guarded : forall s c,
+  (nothing_scheduled s = false -> step s (SetClock c) = (s, ROk)) /\
+  (nothing_scheduled s = true ->
+     let s' := fst (step s (SetClock c)) in
+     cur s' = c /\ q_opt s' = [] /\ q_prune s' = [] /\ q_und s' = [] /\ p_opt s' = [] /\ p_prune s' = [] /\ p_und s' = [] /\
+     holds s' = holds s /\ k_rev s' = k_rev s /\ k_rm s' = k_rm s).
+Proof. exact clock_change_guarded. Qed.
+Print Assumptions C16_clock_change_guarded.
 
 (* not later / nothing left behind: on every history every queue key is >= the current epoch *)
 Theorem C16_no_stranded : forall s0 h, Inv s0 ->
